@@ -73,7 +73,7 @@ register("THRESHOLD_MAX", "src/cli.rs", r"if self\.delete_threshold > ([0-9]+)",
 
 # ---- C05 / C09: working-file naming
 register("TEMP_SUFFIX", "src/temp_file.rs", r'pub fn temp_path_for\(dest: &Path\) -> PathBuf \{[\s\S]*?name\.push\("([^"\\]*)"\);\s*dest\.with_file_name\(name\)', ".sy.tmp", "bytes", ["C05", "C09"])
-register("TEMP_CALLSITE", "src/transport/local.rs", r"let temp_dest = crate::temp_file::temp_path_for\(&dest\);\s*let temp_guard = TempFileGuard::new\(&temp_dest\);()", 1, "Z", ["C05", "C09"])
+register("TEMP_CALLSITE", "src/transport/local.rs", r"let temp_dest = crate::temp_file::temp_path_for\(&dest\);\s*(?://[^\n]*\s*)*let _ = fs::remove_file\(&temp_dest\);\s*let temp_guard = TempFileGuard::new\(&temp_dest\);()", 1, "Z", ["C05", "C09"])
 
 
 # ---- C13: shape of the hard-link hand-off (Model/Hardlink.v, strict = true)
